@@ -26,6 +26,8 @@ pub enum LTy {
     Ext(String),
     Opt(Box<LTy>),
     Io(Box<LTy>),
+    /// `Result<T, E>` with an error type of the vocabulary (or `()`): `Except E T`
+    Res(Box<LTy>, Box<LTy>),
     List(Box<LTy>),
     Unknown,
 }
@@ -44,6 +46,7 @@ impl LTy {
             LTy::Ext(n) => n.clone(),
             LTy::Opt(t) => format!("(Option {})", t.lean()),
             LTy::Io(t) => format!("(Rs.IoRes {})", t.lean()),
+            LTy::Res(t, e) => format!("(Except {} {})", e.lean(), t.lean()),
             LTy::List(t) => format!("(List {})", t.lean()),
             LTy::Unknown => "_".into(),
         }
@@ -79,6 +82,8 @@ pub struct LReg {
     pub structs: HashMap<String, LStruct>,
     pub enums: HashMap<String, Vec<(String, Vec<LTy>)>>,
     pub fns: HashMap<String, LFnSig>,
+    /// `lkind` items: unit structures that implement `AesKind` (type arguments of the key stream)
+    pub kinds: HashSet<String>,
 }
 
 /// external types of the vocabulary: Rust name → Lean type
@@ -90,6 +95,14 @@ fn ext_type(name: &str) -> Option<&'static str> {
         "AesCipher" => "Rs.AesDyn.Cipher",
         // `C::Cipher` of `C: AesKind` (aes::Aes128 / Aes192 / Aes256): the keyed block cipher
         "Cipher" => "Rs.AesBlock",
+        // the `time` crate (feature `time`; Basic/RsTime.lean)
+        "ComponentRange" => "Rs.ComponentRange",
+        "DateTimeRangeError" => "Rs.DateTimeRangeError",
+        "Month" => "Rs.Month",
+        "Date" => "Rs.TimeOps.Date",
+        "Time" => "Rs.TimeOps.Time",
+        "PrimitiveDateTime" => "Rs.TimeOps.PrimitiveDateTime",
+        "OffsetDateTime" => "Rs.TimeOps.OffsetDateTime",
         _ => return None,
     })
 }
@@ -135,6 +148,13 @@ fn ext_method(ty: &str, m: &str) -> Option<(&'static str, ExtKind, LTy)> {
         ("Rs.AesDyn.Cipher", "crypt_in_place") => ("Rs.AesDyn.crypt_in_place", ExtKind::MutBuf, LTy::Unit),
         ("Rs.AesBlock", "encrypt_block") => ("Rs.AesBlock.encrypt_block", ExtKind::RefBuf, LTy::Unit),
         ("Rs.Component", "as_os_str") => ("Rs.Component.as_os_str", ExtKind::Pure, LTy::Path),
+        ("Rs.TimeOps.PrimitiveDateTime", "assume_utc") => ("Rs.TimeOps.assume_utc", ExtKind::Pure, LTy::Ext("Rs.TimeOps.OffsetDateTime".into())),
+        ("Rs.TimeOps.OffsetDateTime", "year") => ("Rs.TimeOps.year", ExtKind::Pure, LTy::Int("Int32".into())),
+        ("Rs.TimeOps.OffsetDateTime", "month") => ("Rs.TimeOps.month", ExtKind::Pure, LTy::Ext("Rs.Month".into())),
+        ("Rs.TimeOps.OffsetDateTime", "day") => ("Rs.TimeOps.day", ExtKind::Pure, LTy::Int("UInt8".into())),
+        ("Rs.TimeOps.OffsetDateTime", "hour") => ("Rs.TimeOps.hour", ExtKind::Pure, LTy::Int("UInt8".into())),
+        ("Rs.TimeOps.OffsetDateTime", "minute") => ("Rs.TimeOps.minute", ExtKind::Pure, LTy::Int("UInt8".into())),
+        ("Rs.TimeOps.OffsetDateTime", "second") => ("Rs.TimeOps.second", ExtKind::Pure, LTy::Int("UInt8".into())),
         _ => return None,
     })
 }
@@ -144,7 +164,6 @@ fn ext_free(f: &str) -> Option<(&'static str, LTy, bool)> {
     Some(match f {
         "constant_time_eq" => ("Rs.L.bytesEq", LTy::Bool, false),
         // aes.rs: `Box::new(AesCtrZipKeyStream::<AesNNN>::new(key)) as Box<dyn AesCipher>` by mode
-        "cipher_from_mode" => ("Rs.AesFromMode.cipher_from_mode", LTy::Ext("Rs.AesDyn.Cipher".into()), true),
         _ => return None,
     })
 }
@@ -164,6 +183,10 @@ fn ext_static(ty: &str, f: &str) -> Option<(&'static str, LTy)> {
         ("Hasher", "new") => ("Rs.Crc32Hasher.new", LTy::Ext("Rs.Crc32Hasher".into())),
         // `Hmac::<Sha1>::new_from_slice(key)`: `Result<Self, InvalidLength>` as an `Option`
         ("Hmac", "new_from_slice") => ("Rs.Hmac.new_from_slice", LTy::Opt(Box::new(LTy::Ext("Rs.Hmac".into())))),
+        ("Month", "try_from") => ("Rs.Month.try_from", LTy::Res(Box::new(LTy::Ext("Rs.Month".into())), Box::new(LTy::Ext("Rs.ComponentRange".into())))),
+        ("Date", "from_calendar_date") => ("Rs.TimeOps.from_calendar_date", LTy::Res(Box::new(LTy::Ext("Rs.TimeOps.Date".into())), Box::new(LTy::Ext("Rs.ComponentRange".into())))),
+        ("Time", "from_hms") => ("Rs.TimeOps.from_hms", LTy::Res(Box::new(LTy::Ext("Rs.TimeOps.Time".into())), Box::new(LTy::Ext("Rs.ComponentRange".into())))),
+        ("PrimitiveDateTime", "new") => ("Rs.TimeOps.pdt_new", LTy::Ext("Rs.TimeOps.PrimitiveDateTime".into())),
         _ => return None,
     })
 }
@@ -234,8 +257,16 @@ pub fn lty(t: &Type, tparams: &[String], self_ty: Option<&LTy>, reg: &Registry, 
                     _ => LTy::Unknown,
                 },
                 "Option" if args.len() == 1 => LTy::Opt(Box::new(lty(args[0], tparams, self_ty, reg, lreg))),
-                "Result" if args.len() == 1 || (args.len() == 2 && matches!(args[1], Type::Path(e) if path_last(&e.path) == "Error")) => {
+                "Result" if args.len() == 1 || (args.len() == 2 && matches!(args[1], Type::Path(e) if path_last(&e.path) == "Error" && e.path.segments[0].ident != "Self")) => {
                     LTy::Io(Box::new(lty(args[0], tparams, self_ty, reg, lreg)))
+                }
+                "Result" if args.len() == 2 => {
+                    // an error type of the vocabulary, or `()`
+                    let (t, e) = (lty(args[0], tparams, self_ty, reg, lreg), lty(args[1], tparams, self_ty, reg, lreg));
+                    if t == LTy::Unknown || !matches!(e, LTy::Ext(_) | LTy::Unit) {
+                        return LTy::Unknown;
+                    }
+                    LTy::Res(Box::new(t), Box::new(e))
                 }
                 _ => {
                     if let Some(e) = ext_type(&n) {
@@ -276,7 +307,15 @@ fn impl_tparams(g: &Generics) -> R<Vec<(String, Vec<String>)>> {
                 WherePredicate::Type(pt) => {
                     let n = match &pt.bounded_ty {
                         Type::Path(p) if p.path.segments.len() == 1 => path_last(&p.path),
-                        // bounds on associated types (`C::Cipher: BlockEncrypt`) carry no vocabulary
+                        // `C::Cipher: KeyInit`: the cipher of `C` can be keyed, its key length is that of the kind `C`
+                        Type::Path(p) if p.path.segments.len() == 2 && p.path.segments[1].ident == "Cipher" && pt.bounds.iter().any(|b| matches!(b, TypeParamBound::Trait(tb) if path_last(&tb.path) == "KeyInit")) => {
+                            let c = p.path.segments[0].ident.to_string();
+                            if let Some(e) = out.iter_mut().find(|(k, _)| *k == c) {
+                                e.1.push("Cipher:KeyInit".into());
+                            }
+                            continue;
+                        }
+                        // other bounds on associated types (`C::Cipher: BlockEncrypt`) carry no vocabulary
                         _ => continue,
                     };
                     for b in &pt.bounds {
@@ -334,6 +373,31 @@ fn self_lty(im: &ItemImpl, tps: &[String]) -> LTy {
     }
 }
 
+/// `Result<_, Self::Error>` in the signature of a trait method: `Self::Error` is the `type Error = …;` of the impl
+pub fn resolve_self_error(im: &ItemImpl, sig: &Signature) -> Signature {
+    let mut sig = sig.clone();
+    let assoc = im.items.iter().find_map(|ii| match ii {
+        ImplItem::Type(t) if t.ident == "Error" => Some(t.ty.clone()),
+        _ => None,
+    });
+    if let (Some(assoc), ReturnType::Type(_, rt)) = (assoc, &mut sig.output) {
+        if let Type::Path(p) = &mut **rt {
+            if let Some(seg) = p.path.segments.last_mut() {
+                if let PathArguments::AngleBracketed(a) = &mut seg.arguments {
+                    for g in a.args.iter_mut() {
+                        if let GenericArgument::Type(Type::Path(q)) = g {
+                            if q.qself.is_none() && q.path.segments.len() == 2 && q.path.segments[0].ident == "Self" && q.path.segments[1].ident == "Error" {
+                                *g = GenericArgument::Type(assoc.clone());
+                            }
+                        }
+                    }
+                }
+            }
+        }
+    }
+    sig
+}
+
 /// Find the free function `fn name`.
 pub fn find_free<'a>(all: &[&'a Item], name: &str) -> Option<&'a ItemFn> {
     for it in all {
@@ -350,7 +414,7 @@ pub fn fn_sig(im: &ItemImpl, f: &ImplItemFn, reg: &Registry, lreg: &LReg) -> R<L
     let tparams = impl_tparams(&im.generics)?;
     let tps: Vec<String> = tparams.iter().map(|x| x.0.clone()).collect();
     let st = self_lty(im, &tps);
-    sig_of(tparams, st, &f.sig, reg, lreg)
+    sig_of(tparams, st, &resolve_self_error(im, &f.sig), reg, lreg)
 }
 
 pub fn free_sig(f: &ItemFn, reg: &Registry, lreg: &LReg) -> R<LFnSig> {
@@ -414,6 +478,9 @@ pub fn collect(files: &[(String, Vec<(String, String)>)], asts: &BTreeMap<String
                 }
                 "lenum" => {
                     lreg.enums.insert(n.clone(), vec![]);
+                }
+                "lkind" => {
+                    lreg.kinds.insert(n.clone());
                 }
                 _ => {}
             }
@@ -518,6 +585,7 @@ pub fn emit(kind: &str, name: &str, all: &[&Item], reg: &Registry, lreg: &LReg, 
             Err("not found".into())
         }
         "lvar" => Ok((format!("variable [{name}]\n"), String::from("-"), 0, 0)),
+        "lkind" => emit_kind(name, all),
         "lenum" => {
             for it in all {
                 if let Item::Enum(e) = it {
@@ -557,6 +625,40 @@ pub fn emit(kind: &str, name: &str, all: &[&Item], reg: &Registry, lreg: &LReg, 
         }
         k => Err(format!("unknown item kind {k}")),
     }
+}
+
+/// `lkind Name`: `pub struct Name;` with `impl AesKind for Name { type Key = …; type Cipher = aes::X; }` — a type
+/// without values and the instance that says which cipher of the `aes` crate it stands for (its key size is vocabulary)
+fn emit_kind(name: &str, all: &[&Item]) -> R<(String, String, usize, usize)> {
+    let st = all.iter().find_map(|it| match it {
+        Item::Struct(s) if s.ident == name && cfg_on(&s.attrs) && matches!(s.fields, Fields::Unit) => Some(s),
+        _ => None,
+    }).ok_or("unit structure not found")?;
+    for it in all {
+        if let Item::Impl(im) = it {
+            let is_kind = matches!(&im.trait_, Some((_, p, _)) if path_last(p) == "AesKind");
+            let for_name = matches!(&*im.self_ty, Type::Path(p) if path_last(&p.path) == name);
+            if !is_kind || !for_name || !cfg_on(&im.attrs) {
+                continue;
+            }
+            for ii in &im.items {
+                if let ImplItem::Type(t) = ii {
+                    if t.ident == "Cipher" {
+                        let cipher = match &t.ty {
+                            Type::Path(p) if p.path.segments.len() == 2 && p.path.segments[0].ident == "aes" => path_last(&p.path),
+                            _ => return Err("`type Cipher` that is not a cipher of the aes crate".into()),
+                        };
+                        if !["Aes128", "Aes192", "Aes256"].contains(&cipher.as_str()) {
+                            return Err(format!("cipher aes::{cipher}"));
+                        }
+                        let text = format!("inductive Gen.{name} where\n  | mk\n\ninstance : Rs.AesKind Gen.{name} := ⟨Rs.AesCrate.{cipher}.keySize⟩\n");
+                        return Ok((text, tokens_hash(&quote::quote!(#st #im)), st.span().start().line, im.span().end().line));
+                    }
+                }
+            }
+        }
+    }
+    Err("impl AesKind not found".into())
 }
 
 include!("t6l_tr.rs");
